@@ -1066,11 +1066,20 @@ class SArr(object):
         sel = self.sel
         return count_atom(self.axes, lambda idx: And(sel(idx) if sel else True, g(idx).z))
 
-    def mean(self, axis=None):
+    def mean(self, axis=None, **kw):
         return arr_mean(self, axis)
 
-    def sum(self, axis=None):
+    def sum(self, axis=None, **kw):
         return arr_sum(self, axis)
+
+    def __array_function__(self, func, types, args, kwargs):
+        """NumPy functions reached through a reference bound before the shim was installed (default arguments
+        such as func=np.mean) are routed to the shim"""
+        from . import shim_np
+        f = getattr(shim_np.np_shim, func.__name__, None)
+        if f is None:
+            raise Unsupported("np.%s has no symbolic model" % func.__name__)
+        return f(*args, **kwargs)
 
     def __repr__(self):
         return "SArr(%s, axes=%s%s%s)" % (self.dtype, [a.name for a in self.axes], ", filtered" if self.sel else "", ", masked" if self.mask else "")
